@@ -76,11 +76,18 @@ class TunnelEndpoint(Endpoint):
         """
         Ensure packets are only delivered if they follow they are properly encrypted.
         """
-        for listener in self.endpoint._listeners:  # noqa: SLF001
+        # Select the listeners like the wrapped endpoint does: communities are registered by prefix
+        prefix = packet[1][:self.endpoint.prefixlen]
+        listeners = self.endpoint._prefix_map.get(prefix, self.endpoint._listeners)  # noqa: SLF001
+        delivered: list[EndpointListener] = []
+        for listener in listeners:
             # Anonymized communities should ignore traffic received from the socket
             # Non-anonymized communities should ignore traffic received from the TunnelCommunity
             if getattr(listener, "anonymize", False) != from_tunnel:
                 continue
+            if any(listener is other for other in delivered):
+                continue
+            delivered.append(listener)
             self.endpoint._deliver_later(listener, packet)  # noqa: SLF001
 
     def add_listener(self, listener: EndpointListener) -> None:
